@@ -167,3 +167,11 @@ def s_negative_index(a, b, v):
 
 def s_list_repeat(a, b, v):
     return np.array([a[0]] * 3 + [0] * 2 + 2 * [b[1], b[2]])
+
+
+def s_moveaxis_inplace(a, b, v):
+    m = np.arange(12).reshape(3, 4) + a[0]
+    t = np.moveaxis(m, 0, -1)
+    t *= 2
+    t -= np.array([1, 2, 3])
+    return np.hstack([t.reshape(-1), m.reshape(-1)])
